@@ -220,6 +220,7 @@ def ltf_plan(**args):
         L_arr[j] = L_j
         averages = int(round_half_up(((N - L_j) / (1 - olap)) / L_j + 1))
         navg_arr.append(averages)
+        K_arr[j] = averages  # K must be the number of starts actually generated
 
         if averages == 1:
             shift = 1.0
